@@ -247,7 +247,7 @@ func runC02(c *Ctx) {
 				}
 			}
 			if u, ok := v.(*ssa.UnOp); ok {
-				return u.X
+				return ownerOfStoredCopyV(u.X, im.recVersion) // the cell itself, or the record it is the prepared copy of
 			}
 		}
 		return nil
